@@ -776,7 +776,8 @@ def parse_response(codec, m, data, proto):
         he = headers.get(cname)
         if he is not None:
             hq = codec.class_q(cname)
-            hv[cname] = codec.read(he, Decl(hq[1], hq[0], hq, 1, 1, False), ['c', cname])
+            # (a header block that is present but nil denotes "no value" for that header: read leniently)
+            hv[cname] = codec.read(he, Decl(hq[1], hq[0], hq, 1, 1, True), ['c', cname])
     if style in ('bare', 'out_bare'):
         if ret is None:
             return ('ok', None, hv)
